@@ -309,6 +309,10 @@ def units(w):
     # and steps with no exception allowed
     from . import c19
     U.extend([u for u in c19.units(w) if u.name.startswith("functions.py::FuncRange.execute[")])
+    # rendering an object looks its _str_ member up along the prototype chain: the walk ends on every finite object graph
+    # (chains that run into a cycle through the start or past it, chains ending in a non-object) - the units of C03
+    from . import c03
+    U.extend(u for u in c03.units(w) if "ValueObject.resolveItem" in u.name or "NodeDeref.evaluate[chain" in u.name)
     return U
 
 
